@@ -30,6 +30,13 @@ for name in sorted(res):
         except Exception: pass
     elif os.path.exists('/verif/mutants/' + name + '/what.txt'):
         summ = open('/verif/mutants/' + name + '/what.txt').read().strip()[:160]
+    if os.path.exists(d + '/meta.json'):
+        try:
+            mm = json.load(open(d + '/meta.json'))
+            mm['detected_by_quick_checks'] = caught
+            mm['detection_run'] = 'seeddetect2.sh: scratch copy of /repo + patch.diff, harness rebuilt against it (cargo paths override), every ./check <id> quick equivalent with VERIF_SEED=0'
+            json.dump(mm, open(d + '/meta.json', 'w'), indent=1)
+        except Exception: pass
     prop = name.split('-')[0]
     own = any(c.startswith(prop + '(') for c in caught) if prop.startswith('C') else bool(caught)
     if not own: miss.append(name)
